@@ -25,6 +25,8 @@ type KnownFinding struct {
 	Witness  string `json:"witness"`  // an input/history that fails (documentation)
 }
 
+var tracesValidated int
+
 type verdict struct {
 	spec   HarnessSpec
 	res    *HarnessResult
@@ -88,6 +90,7 @@ func checkMain(args []string) int {
 	verbose := fs.Bool("v", false, "verbose")
 	jobs := fs.Int("j", 0, "parallel harnesses")
 	noEvidence := fs.Bool("no-evidence", false, "do not write the evidence file")
+	noReplay := fs.Bool("no-replay", false, "skip native replay of reachability witnesses")
 	fs.Parse(args[1:])
 	if t := os.Getenv("VERIF_TIER"); t != "" && !flagSet(fs, "tier") {
 		*tier = t
@@ -155,7 +158,70 @@ func checkMain(args []string) int {
 	wg.Wait()
 	exit := 0
 	knownPrinted := map[string]bool{}
-	var violLines []string
+	// native replay: up to 3 violations and 1 reachability witness per harness, one test binary per package
+	var cases []*replayFile
+	type caseRef struct {
+		v     *verdict
+		o     ObResult
+		cover bool
+		path  string
+	}
+	var refs []caseRef
+	for _, v := range verdicts {
+		for i, o := range v.viol {
+			if i >= 3 {
+				break
+			}
+			path := writeReplay(prop, v, o)
+			cases = append(cases, &replayFile{Property: prop, Harness: v.spec.Name, Func: v.spec.Func, Pkg: v.spec.Pkg, IntMode: v.spec.Int, Obligation: o})
+			refs = append(refs, caseRef{v, o, false, path})
+		}
+		if !*noReplay && v.res.Err == "" && !v.spec.NoReplay {
+			for _, o := range v.res.Obs {
+				if o.Class == "cover" && o.Result == "sat" {
+					cases = append(cases, &replayFile{Property: prop, Harness: v.spec.Name, Func: v.spec.Func, Pkg: v.spec.Pkg, IntMode: v.spec.Int, Obligation: o})
+					refs = append(refs, caseRef{v, o, true, ""})
+					break
+				}
+			}
+		}
+	}
+	validated := 0
+	var outcomes []replayOutcome
+	if len(cases) > 0 {
+		wd, _ := os.MkdirTemp("/verif/.work", "rp")
+		outcomes = replayBatch(cases, wd)
+		os.RemoveAll(wd)
+	}
+	reproduced := map[*verdict]map[string]bool{}
+	for i, r := range refs {
+		oc := outcomes[i]
+		if r.cover {
+			if oc.Reproduced {
+				validated++
+			} else if oc.End == "ASSUME-FAILED" || oc.End == "" {
+				r.v.incon = append(r.v.incon, fmt.Sprintf("witness %q could not be replayed natively (%s)", r.o.ID, oc.End))
+			} else {
+				r.v.incon = append(r.v.incon, fmt.Sprintf("ENGINE-DIVERGENCE: witness %q sat in the encoding but the native run ended %s without covering it", r.o.ID, oc.End))
+			}
+			continue
+		}
+		if reproduced[r.v] == nil {
+			reproduced[r.v] = map[string]bool{}
+		}
+		key := r.o.Class + "|" + r.o.ID
+		if oc.Reproduced {
+			validated++
+			if !reproduced[r.v][key] {
+				reproduced[r.v][key] = true
+				fmt.Printf("  %s: [%s] %s at %s model=%v (reproduced natively: end=%s fails=%v)\n", r.v.spec.Name, r.o.Class, r.o.ID, r.o.Pos, r.o.Model, oc.End, oc.Fails)
+				fmt.Printf("VIOLATION property=%s replay=%s\n", prop, r.path)
+				exit = 1
+			}
+		} else {
+			r.v.incon = append(r.v.incon, fmt.Sprintf("SPURIOUS: [%s] %s sat in the encoding but not reproduced natively (end=%s fails=%v); model=%v", r.o.Class, r.o.ID, oc.End, oc.Fails, r.o.Model))
+		}
+	}
 	for _, v := range verdicts {
 		if *verbose {
 			printResult(v.res, true)
@@ -175,17 +241,8 @@ func checkMain(args []string) int {
 				exit = 2
 			}
 		}
-		for _, o := range v.viol {
-			path := writeReplay(prop, v, o)
-			line := fmt.Sprintf("VIOLATION property=%s replay=%s", prop, path)
-			violLines = append(violLines, line)
-			fmt.Printf("  %s: [%s] %s at %s model=%v\n", v.spec.Name, o.Class, o.ID, o.Pos, o.Model)
-			exit = 1
-		}
 	}
-	for _, l := range violLines {
-		fmt.Println(l)
-	}
+	tracesValidated = validated
 	writeEvidence(prop, *tier, seed, verdicts, time.Since(t0), "", *noEvidence)
 	return exit
 }
@@ -312,7 +369,7 @@ func writeEvidence(prop, tier string, seed int, vs []*verdict, wall time.Duratio
 		"coverage": map[string]interface{}{
 			"states":      states,
 			"transitions": trans,
-			"traces_validated_against_impl": 0,
+			"traces_validated_against_impl": tracesValidated,
 			"samples":                 samples,
 			"obligations":             nobl,
 			"discharged":              ndis,
